@@ -207,10 +207,12 @@ Mot(P) == LET h == P.hover IN
        << <<h,h,h,h>>, <<h+1,h-1,h,0>> >>,
        << <<2,9,4,6>>, <<0,0,0,0>> >>,
        << <<5,5,1,1>>, <<6,4,2,0>> >>,
-       << <<6,1,6,1>>, <<1,6,1,6>> >> >>
+       << <<6,1,6,1>>, <<1,6,1,6>> >>,
+       << <<3,-2,5,-1>>, <<0,0,0,0>> >>,   \* 15, 16: "any rotor speeds" -- reversed rotors (thrust ~ w^2 keeps its direction), negative commands
+       << <<-4,-4,-4,-4>>, <<-6,2,-4,0>> >> >>
 (* scenarios <<index into VW, index into Mot>> *)
-ScenQuick    == (1..4) \X (1..10)
-ScenThorough == ({4} \X (1..14)) \cup ((1..6) \X {1, 2, 9}) \cup ({2, 3} \X {4, 12})
+ScenQuick    == ((1..4) \X (1..10)) \cup ({2, 4} \X {15, 16})
+ScenThorough == ({4} \X (1..16)) \cup ((1..6) \X {1, 2, 9}) \cup ({2, 3} \X {4, 12})
 Scen == IF Thorough THEN ScenThorough ELSE ScenQuick
 
 AllEq(o)  == o[1] = o[2] /\ o[2] = o[3] /\ o[3] = o[4]
